@@ -249,6 +249,13 @@ def matcher_case(cs, ck, patt, targ, scope, tag):
         ck.count(f'_get_mapping:{tag}:mappings={min(len(got), 5)}' + ('+' if len(got) >= 5 else ''))
 
 
+def pop_order(components, atoms):
+    """a pop order of the atom set that makes the model's _connected_components produce the components in the order the real code returned
+    them: one representative of every component first (which atom set.pop() really handed out cannot be observed and does not matter)"""
+    reps = [min(c) for c in components]
+    return reps + [n for n in atoms if n not in reps]
+
+
 def wrapper_case(cs, ck, G, patt, targ, flt, scope, tag):
     """Isomorphism._get_mapping on integer-labelled graphs (compile + components + scope + filter + lazy_product)"""
     p, t = G(*patt), G(*targ)
@@ -259,7 +266,8 @@ def wrapper_case(cs, ck, G, patt, targ, flt, scope, tag):
     ck.case(('wr', repr(patt), repr(targ), flt, None if scope is None else tuple(sorted(scope))), nontrivial=bool(got))
     if tag == 'rand' and flt:
         # the hypotheses of the theorems (well-formed adjacency; connected_components = a partition into CONNECTED lists no bond leaves)
-        cs.add(f'hyp_okb Z.eqb {zpairs(targ[0])} {zadj(targ[1])} {zll(tc)} && wf_adjb Z.eqb {zpairs(patt[0])} {zadj(patt[1])}',
+        cs.add(f'hyp_okb Z.eqb {zpairs(targ[0])} {zadj(targ[1])} {zll(tc)} && wf_adjb Z.eqb {zpairs(patt[0])} {zadj(patt[1])} && '
+               f'cc_tieb (W := Z) {zadj(targ[1])} {lst(pop_order(t.connected_components, targ[0]), zraw)} {zll(tc)}',
                ('hypotheses', tag, patt, targ))
         ck.count('hypotheses:int-graph')
     ncomp = len(p._compiled_query[0])
@@ -466,7 +474,8 @@ def corr_molecules(ck, cs):
         cs.add(f'skel_eqb (skel (compile_query (m_atoms {coqmol.mol_term(t)}) (m_adj {coqmol.mol_term(t)}))) {sk}', ('_compiled_query', str(t)))
         ck.case(('mol-cq', str(t), tuple(t._atoms)), nontrivial=True)
         tc0 = [sorted(c) for c in t.connected_components]
-        cs.add(f'hyp_okb bond_eqb (m_atoms {coqmol.mol_term(t)}) (m_adj {coqmol.mol_term(t)}) {zll(tc0)}', ('hypotheses', 'molecule', str(t)))
+        cs.add(f'hyp_okb bond_eqb (m_atoms {coqmol.mol_term(t)}) (m_adj {coqmol.mol_term(t)}) {zll(tc0)} && '
+               f'cc_tieb (W := bond) (m_adj {coqmol.mol_term(t)}) {lst(pop_order(t.connected_components, t._atoms), zraw)} {zll(tc0)}', ('hypotheses', 'molecule', str(t)))
         ck.count('hypotheses:molecule')
         ck.count(f'molecule:compile_query:closures={min(sum(len(v) for v in clo.values()), 4)}')
         for k in range(3):
@@ -481,8 +490,9 @@ def corr_molecules(ck, cs):
         except Exception:  # noqa
             two = None
         if two is not None and len(two) <= 40:
-            cs.add(f'hyp_okb bond_eqb (m_atoms {coqmol.mol_term(two)}) (m_adj {coqmol.mol_term(two)}) {zll([sorted(c) for c in two.connected_components])}',
-                   ('hypotheses', 'molecule', str(two)))
+            cs.add(f'hyp_okb bond_eqb (m_atoms {coqmol.mol_term(two)}) (m_adj {coqmol.mol_term(two)}) {zll([sorted(c) for c in two.connected_components])} && '
+                   f'cc_tieb (W := bond) (m_adj {coqmol.mol_term(two)}) {lst(pop_order(two.connected_components, two._atoms), zraw)} '
+                   f'{zll([sorted(c) for c in two.connected_components])}', ('hypotheses', 'molecule', str(two)))
             ck.count('hypotheses:molecule')
             p1 = cut_pattern(rng, two, rng.randint(1, 4))
             p2 = cut_pattern(rng, two, rng.randint(1, 4))
@@ -802,7 +812,7 @@ def correspondence(ck):
     corr_automorphism(ck, cs)
     corr_stereo(ck, cs)
     corr_match_stereo(ck, cs)
-    ok, failing, log = coqcases.run_cases('c07', 'Iso Graph IsoStereo', cs.exprs, shard=250, extra='From Proofs Require Import IsoProofs IsoExt IsoMatchStereo.')
+    ok, failing, log = coqcases.run_cases('c07', 'Iso Graph IsoStereo', cs.exprs, shard=250, extra='From Proofs Require Import IsoProofs IsoExt IsoMatchStereo IsoCC.')
     good = ok and not failing
     ck.oblige('correspondence: lazy_product, _compile_query, _get_mapping, Isomorphism._get_mapping (sequence of mappings, order included), '
               'operators, _get_automorphism_mapping == Coq model', good, 'correspondence', log or str([cs.meta[i] for i in failing[:5]]))
